@@ -47,6 +47,51 @@ ATTACHED_OK = {
 }
 
 
+def infer_detachers(tu):
+    """{function: set(parameter index)}: helpers that take slots out of the
+    node passed as that parameter (store to P->len, memmove/memcpy into or
+    store to P->keys / values / data), closed over calls that pass the
+    parameter on."""
+    out = {}
+    params = {name: [k.n for k in fn.kids if k.k == "ParmVarDecl"] for name, fn in tu.funcs.items()}
+    changed = True
+    rounds = 0
+    while changed and rounds < 6:
+        changed = False
+        rounds += 1
+        for name, fn in tu.funcs.items():
+            ps = params[name]
+            for n in fn.walk():
+                hit = None
+                if n.k == "BinaryOperator" and n.v == "=" or n.k == "CompoundAssignOperator" or \
+                        (n.k == "UnaryOperator" and n.v in ("++", "--", "post++", "post--")):
+                    lp = path(n.kids[0]) or ""
+                    for i, pn in enumerate(ps):
+                        if lp in ("%s->len" % pn, "%s->keys" % pn, "%s->values" % pn, "%s->data" % pn):
+                            hit = i
+                elif n.k == "CallExpr" and callee(n)[0] == "fn":
+                    c = callee(n)[1]
+                    if c in ("memmove", "memcpy") and len(n.kids) > 1:
+                        dst = text(n.kids[1])
+                        for i, pn in enumerate(ps):
+                            if dst.startswith(("%s->keys" % pn, "%s->values" % pn, "%s->data" % pn)):
+                                hit = i
+                    elif c in out:
+                        for j in out[c]:
+                            if j + 1 < len(n.kids):
+                                ap = path(n.kids[1 + j])
+                                if ap in ps:
+                                    hit = ps.index(ap)
+                                    if hit not in out.get(name, set()):
+                                        out.setdefault(name, set()).add(hit)
+                                        changed = True
+                        continue
+                if hit is not None and hit not in out.get(name, set()):
+                    out.setdefault(name, set()).add(hit)
+                    changed = True
+    return out
+
+
 def node_slot(e):
     """(path, field) when e designates a reference slot (key, value, child,
     next, firstbucket) of a Bucket / BTree / BTreeItem, else None."""
@@ -80,9 +125,10 @@ def _is_objptr(t):
 
 
 class RefAnalysis(Analysis):
-    def __init__(self, cfg, tu, newref_funcs, outown=None):
+    def __init__(self, cfg, tu, newref_funcs, outown=None, detachers=None):
         self.newref_funcs = newref_funcs
         self.outown = outown or {}
+        self.detachers = detachers or {}
         self.out_returns = []     # (return value or None, frozenset(params stored owned))
         Analysis.__init__(self, cfg, tu)
         self.reports = []
@@ -345,6 +391,13 @@ class RefAnalysis(Analysis):
                 dst = text(args[0])
                 st = self._detach(st, lambda q: dst == self._array_of(q) or
                                   dst.startswith(self._array_of(q) + " "))
+            if c[0] == "fn" and c[1] in self.detachers:
+                # a helper that takes slots out of the node it is given
+                for j in self.detachers[c[1]]:
+                    if j < len(args):
+                        ap = path(args[j])
+                        if ap:
+                            st = self._detach(st, lambda q: q.startswith(ap + "->"))
             # out-parameters: &v passed to a call
             for i, a in enumerate(args):
                 a0 = strip(a)
@@ -586,6 +639,7 @@ def infer_outown(tu, newref):
 def analyse_tu(tu):
     newref = infer_newref_funcs(tu)
     outown = infer_outown(tu, newref)
+    detachers = infer_detachers(tu)
     findings = []
     sources = funcs = 0
     slot_loads = attached = taken = 0
@@ -594,7 +648,7 @@ def analyse_tu(tu):
         if name in OUT_OF_SCOPE or name.startswith("PyInit_"):
             continue
         fn = tu.funcs[name]
-        an = RefAnalysis(CFG(fn), tu, newref, outown)
+        an = RefAnalysis(CFG(fn), tu, newref, outown, detachers)
         an.solve()
         an.check_exits()
         funcs += 1
